@@ -704,6 +704,45 @@ pub fn cmd_roundtrip(args: &[String]) {
                     }
                 }
             }
+            // history independence: the same entry point called for parties that share a key with the previous call
+            // (two senders to one recipient, one sender to two recipients, the same parties again) - whatever an
+            // implementation keeps between calls must not leak into the next result
+            if (len == 0 || len == 33) && cons != "secretbox" {
+                let fixpre = |o: &mut Ops| unsafe {
+                    so::crypto_box_beforenm(o.pre_s.as_mut_ptr(), o.rpk.as_ptr(), o.ssk.as_ptr());
+                    so::crypto_box_beforenm(o.pre_r.as_mut_ptr(), o.spk.as_ptr(), o.rsk.as_ptr());
+                };
+                let a = ops.clone();
+                let mut b = mk_ops(&mut rng, len); b.rpk = a.rpk; b.rsk = a.rsk; b.nonce = a.nonce; fixpre(&mut b);      // another sender, same recipient
+                let mut c = mk_ops(&mut rng, len); c.spk = a.spk; c.ssk = a.ssk; c.nonce = a.nonce; fixpre(&mut c);      // same sender, another recipient
+                let order: [(&str, &Ops); 5] = [("A", &a), ("B (another sender, same recipient)", &b), ("A again", &a), ("C (same sender, another recipient)", &c), ("B again", &b)];
+                for (en, ef) in encs.iter() {
+                    if en.starts_with("sodium") { continue; }
+                    let mut wires: Vec<Vec<u8>> = vec![];
+                    for (who, o) in order.iter() {
+                        rep.evaluations += 1;
+                        match catch(|| ef(o)) {
+                            Ok(Ok(w)) => {
+                                if cons != "seal" && w != canonical(cons, o) { rep.fail(&format!("{}: bytes differ from libsodium when the previous call shared a key with this one", en), json!({"len": len, "call": who, "seed": seed})); }
+                                wires.push(w);
+                            }
+                            _ => { rep.fail(&format!("{}: encryption failed in a sequence of calls", en), json!({"len": len, "call": who})); wires.push(vec![]); }
+                        }
+                    }
+                    // opened in another order than they were made
+                    for (on, of) in opens.iter() {
+                        if on.starts_with("sodium") && cons != "seal" { continue; }
+                        for &k in [1usize, 0, 3, 2, 4].iter() {
+                            if wires[k].is_empty() { continue; }
+                            rep.evaluations += 1;
+                            match catch(|| of(order[k].1, &wires[k])) {
+                                Ok(r) => if !r.ok || r.msg != order[k].1.msg { rep.fail(&format!("{} -> {}: does not return the message when the previous call shared a key with this one", en, on), json!({"len": len, "call": order[k].0, "seed": seed})); },
+                                Err(p) => rep.fail(&format!("{} -> {}: open panicked", en, on), json!({"len": len, "panic": p})),
+                            }
+                        }
+                    }
+                }
+            }
             if ti == 0 && len == 17 { rep.sample(json!({"cons": cons, "enc": encs.iter().map(|e| e.0).collect::<Vec<_>>(), "open": opens.iter().map(|e| e.0).collect::<Vec<_>>(), "len": len})); }
         }
     }
